@@ -95,14 +95,16 @@ def _server(ctx, b, scs, args, cfg, what, expect_over=False):
         ctx.fail("server driver ran %d of %d scenarios" % (len(done), len(scs)))
     todo = list(done)
     drift = []
-    rounds = 0
+    rounds = validated = 0
     while todo and rounds < 8:
         rounds += 1
         ev, owner = _flatten(todo)
         ok, hw, r = ctx.validate_trace("TraceTxPoolSrv", cfg + ".cfg", ev, timeout=1500)
         if ok:
+            validated += len(todo)
             break
         k = owner[hw - 1]
+        validated += k
         bad = todo[k]
         # once more, slowly: separates a server that was not yet quiet from a real divergence
         again = ctx.driver(b, ["srv-run"] + args, input_obj=[{"steps": [{x: st[x] for x in st if x != "obs"} for st in bad["steps"]],
@@ -113,6 +115,7 @@ def _server(ctx, b, scs, args, cfg, what, expect_over=False):
         if ok2:
             ctx.note("%s: scenario %d was observed before the server was quiet; accepted on the slow re-run" % (what, bad["id"]))
             done[bad["id"] - 1] = again
+            validated += 1
         else:
             drift.append((again, hw2))
             done[bad["id"] - 1] = again
@@ -135,10 +138,16 @@ def _server(ctx, b, scs, args, cfg, what, expect_over=False):
         if (sc["id"] - 1) not in mon:
             ctx.note("DRIFT (%s): scenario %d leaves the implementation-shaped model at step %d but satisfies the C37 monitor: %s"
                      % (what, sc["id"], hw - 1, json.dumps(sc["steps"][max(0, hw - 2)])[:500]))
-    ctx.cov["traces_validated_against_impl"] += len(done) - len(drift)
+    ctx.cov["traces_validated_against_impl"] += validated
+    if validated + len(drift) < len(done):
+        ctx.note("%s: %d scenarios were checked by the monitor only (strict validation stopped after %d divergences)" % (what, len(done) - validated - len(drift), len(drift)))
     ctx.sample({what: done[len(done) // 2]["steps"][-1]})
     if expect_over and over_seen == 0:
-        ctx.fail("the model predicts a capacity overshoot (PropCap fails in TxPool_cap.cfg) but none was observed on the real server")
+        if drift and not mon:
+            ctx.note("%s: the model (capacity tested at admission only) predicts an overshoot, the real server stayed within its capacity "
+                     "and left the model exactly there (DRIFT permitted by C37)" % what)
+        else:
+            ctx.fail("the model predicts a capacity overshoot (PropCap fails in TxPool_cap.cfg) but none was observed on the real server")
     return sum(len(s["steps"]) for s in done), _distinct_srv(done)
 
 
@@ -218,11 +227,12 @@ def _lin(ctx, q, b):
     evals = 0
     lb = ctx.build("vd-pool", race=True) if not q else b
     env = {"GORACE": "log_path=%s halt_on_error=0 exitcode=0" % os.path.join(ctx.out, "race")}
-    plans = [(60, 2, 6, 2), (60, 3, 6, 2), (80, 4, 6, 2)] if q else [(600, 2, 6, 2), (800, 3, 6, 2), (1200, 4, 6, 2), (300, 4, 6, 0), (300, 4, 6, 3)]
+    plans = [(60, 2, 6, 2, ""), (60, 3, 6, 2, ""), (80, 4, 6, 2, ""), (300, 4, 6, 2, "hot")] if q else \
+            [(600, 2, 6, 2, ""), (800, 3, 6, 2, ""), (1200, 4, 6, 2, ""), (300, 4, 6, 0, ""), (300, 4, 6, 3, ""), (3000, 4, 6, 2, "hot")]
     overl = 0
     bymax = {}
-    for nh, ng, nops, maxtx in plans:
-        out = ctx.driver(lb, ["lin-record", str(nh), str(ng), str(nops), str(maxtx)], env=env, timeout=3000)
+    for nh, ng, nops, maxtx, hot in plans:
+        out = ctx.driver(lb, ["lin-record", str(nh), str(ng), str(nops), str(maxtx)] + ([hot] if hot else []), env=env, timeout=3000)
         hs = [o for o in out if "calls" in o]
         overl += [o for o in out if o.get("summary")][0]["overlapping_pairs"]
         bymax.setdefault(maxtx, []).extend(hs)
